@@ -91,6 +91,14 @@ type c42Scenario struct {
 	// (see claims.json: D2, D3), so that the histories around them are still
 	// explored in depth. The strict scenarios keep reporting those.
 	AvoidKnown bool
+	// ActiveOnly: the name lists of requests are judged only on the server that
+	// is active at the end of the step ("on whichever server is currently
+	// active, the next request names exactly the watched resources"); what the
+	// servers that are merely being retried are told is C44's business (D2).
+	// In the enumeration a revert to a higher-priority server is not taken
+	// while a resource first watched on a fallback server is still watched
+	// (after D2 the primary was never told about it).
+	ActiveOnly bool
 }
 
 // ---- expectations ----
@@ -127,6 +135,7 @@ type c42Exp struct {
 	Tlog     [c42NS][]string
 	Consumed map[[2]int]int
 	Feat     map[string]bool // what happened (coverage classes)
+	Active   int             // active server at the end of the step (-1 none)
 }
 
 // ---- state ----
@@ -189,12 +198,13 @@ type c42Model struct {
 	ch        [c42NS]*c42MChan
 	streamCtr [c42NS]int
 	lastC     int
+	tainted   map[c42Key]bool // resources first watched while on a fallback server and still watched
 	exp       *c42Exp
 	bad       string // the model reached a situation it does not define
 }
 
 func c42NewModel(sc *c42Scenario) *c42Model {
-	m := &c42Model{sc: sc, res: map[c42Key]*c42MRes{}, active: -1, lastC: -1}
+	m := &c42Model{sc: sc, res: map[c42Key]*c42MRes{}, active: -1, lastC: -1, tainted: map[c42Key]bool{}}
 	for i := range m.connOK {
 		m.connOK[i] = true
 	}
@@ -207,6 +217,10 @@ func c42NewModel(sc *c42Scenario) *c42Model {
 func (m *c42Model) clone() *c42Model {
 	n := *m
 	n.exp = nil
+	n.tainted = make(map[c42Key]bool, len(m.tainted))
+	for k := range m.tainted {
+		n.tainted[k] = true
+	}
 	n.res = make(map[c42Key]*c42MRes, len(m.res))
 	for k, r := range m.res {
 		rr := *r
@@ -302,6 +316,9 @@ func (m *c42Model) applicable(ev c42Ev) bool {
 		if !c.exists || !c.up || c.doomed() || len(c.queue) >= 8 {
 			return false
 		}
+		if ev.K == 'R' && m.sc.ActiveOnly && ev.S < m.active && len(m.tainted) > 0 {
+			return false
+		}
 		if ev.K == 'R' {
 			// only types with a currently watched resource: what the client
 			// owes for a response of a type it has no subscription for is not
@@ -379,6 +396,7 @@ func (m *c42Model) apply(ev c42Ev, step int) *c42Exp {
 			g.Snaps = append([][]string(nil), m.ch[sk.Srv].snaps[sk.T]...)
 		}
 	}
+	m.exp.Active = m.active
 	return m.exp
 }
 
@@ -753,6 +771,7 @@ func (m *c42Model) watch(w int) {
 		if m.active > 0 {
 			m.feat("watch-new-resource-while-on-fallback")
 			m.feat("dev:watch-new-resource-while-on-fallback")
+			m.tainted[k] = true
 		}
 	} else {
 		m.feat("watch:additional-watcher")
@@ -802,6 +821,7 @@ func (m *c42Model) unwatch(w int) {
 		}
 	}
 	delete(m.res, k)
+	delete(m.tainted, k)
 	if len(m.res) == 0 {
 		m.feat("unwatch:all-channels-released")
 		for j := 0; j < m.sc.NServers; j++ {
